@@ -17,7 +17,7 @@ import threading
 import vlib
 from vlib import prints, write_ndjson, read_ndjson, MachineryError
 
-KINDS = '"clean", "bare", "tmpl", "regexp", "agg", "broken", "both", "ovr"'
+KINDS = '"clean", "bare", "tmpl", "regexp", "agg", "broken", "both", "ovr", "smelly"'
 INPUT_CFG = """SPECIFICATION Spec
 CONSTANTS
   MaxRules = %d
@@ -25,6 +25,7 @@ CONSTANTS
   Cfgs = {%s}
   Twos = {FALSE, TRUE}
   Grps = {FALSE, TRUE}
+  Syms = {%s}
 INVARIANTS EmitCase
 CHECK_DEADLOCK FALSE
 """
@@ -87,7 +88,9 @@ def judge(ctx, recs, shards, tag):
     if not recs:
         return [], [], [], 0
     starts = [k for k, r in enumerate(recs) if r["ev"] in ("File", "BinFile")]
-    shards = max(1, min(shards, len(starts), (len(recs) + 799) // 800))
+    # the machine is shared: at most 3 (quick) / 6 (thorough) JUDGE processes at a time (VERIF_JUDGE_SHARDS overrides)
+    cap = int(os.environ.get("VERIF_JUDGE_SHARDS") or (6 if ctx.thorough else 3))
+    shards = max(1, min(shards, cap, len(starts), (len(recs) + 799) // 800))
     # inputs are dealt round-robin: costly ones (many reports) sit next to each other in the sorted input list
     bounds = starts + [len(recs)]
     parts = [[] for _ in range(shards)]
@@ -192,14 +195,26 @@ def run(ctx, cases_override=None):
                 raise MachineryError("vacuity guard %s: not reachable in the model" % inv)
     # ---------------------------------------------------------------- GEN 1: inputs
     if cases_override is None:
-        g = ctx.tlc("ScanInput", "c11_in.cfg", files={"c11_in.cfg": INPUT_CFG % (3 if th else 2, KINDS, CFGS)}, workers=4, timeout=3000, tag="gen-inputs")
-        inputs = [v[0] for v in prints(g, "CASE")]
-        g2 = ctx.tlc("ScanInput", "c11_in2.cfg", files={"c11_in2.cfg": INPUT_CFG % (6, KINDS, CFGS)}, workers=4, simulate=(50 if th else 12),
+        if th:
+            g = ctx.tlc("ScanInput", "c11_in.cfg", files={"c11_in.cfg": INPUT_CFG % (3, KINDS, CFGS, "FALSE")}, workers=4, timeout=3000, tag="gen-inputs")
+            inputs = [v[0] for v in prints(g, "CASE")]
+        else:
+            # quick: one/two files without group labels, and one file with group labels (not two files with group labels)
+            base = INPUT_CFG % (2, KINDS, CFGS, "FALSE")
+            g = ctx.tlc("ScanInput", "c11_in.cfg", files={"c11_in.cfg": base.replace("Grps = {FALSE, TRUE}", "Grps = {FALSE}")}, workers=4, timeout=3000, tag="gen-inputs")
+            ga = ctx.tlc("ScanInput", "c11_ina.cfg", files={"c11_ina.cfg": base.replace("Grps = {FALSE, TRUE}", "Grps = {TRUE}").replace("Twos = {FALSE, TRUE}", "Twos = {FALSE}")},
+                         workers=4, timeout=3000, tag="gen-inputs-grouplabels")
+            inputs = [v[0] for v in prints(g, "CASE")] + [v[0] for v in prints(ga, "CASE")]
+        g2 = ctx.tlc("ScanInput", "c11_in2.cfg", files={"c11_in2.cfg": INPUT_CFG % (6, KINDS, CFGS, "FALSE")}, workers=4, simulate=(50 if th else 4),
                      depth=7, deadlock=False, timeout=3000, tag="gen-inputs-long")
         longer = [v[0] for v in prints(g2, "CASE") if len(v[0]["rules"]) > (3 if th else 2)]
         # two unreachable Prometheus servers: every online check is two jobs per rule (same reporter, same lines)
-        g3 = ctx.tlc("ScanInput", "c11_in3.cfg", files={"c11_in3.cfg": INPUT_CFG % (2 if th else 1, KINDS, '"prom2"')}, workers=4, timeout=3000, tag="gen-inputs-prom2")
+        g3 = ctx.tlc("ScanInput", "c11_in3.cfg", files={"c11_in3.cfg": INPUT_CFG % (2 if th else 1, KINDS, '"prom2"', "FALSE")}, workers=4, timeout=3000, tag="gen-inputs-prom2")
         longer += [v[0] for v in prints(g3, "CASE")]
+        # a symlink to the first rule file is linted as well: the same problems under two names with one target
+        g4 = ctx.tlc("ScanInput", "c11_in4.cfg", files={"c11_in4.cfg": (INPUT_CFG % (2 if th else 1, KINDS, '"same", "mixed"', "TRUE")).replace("Twos = {FALSE, TRUE}", "Twos = {TRUE}")},
+                     workers=4, timeout=3000, tag="gen-inputs-symlink")
+        longer += [v[0] for v in prints(g4, "CASE")]
         seen, uniq = set(), []
         for c in inputs + longer:
             k = json.dumps(c, sort_keys=True)
@@ -209,8 +224,11 @@ def run(ctx, cases_override=None):
         inputs = sorted(uniq, key=lambda c: json.dumps(c, sort_keys=True))
     else:
         inputs = [dict(c) for c in cases_override]
+    for c in inputs:
+        c.setdefault("sym", False)
+        c.setdefault("grp", False)
     # ---------------------------------------------------------------- EXEC: shapes
-    ipath = write_ndjson(ctx.path("c11_inputs.ndjson"), [{k: c[k] for k in ("cfg", "rules", "two", "grp")} for c in inputs])
+    ipath = write_ndjson(ctx.path("c11_inputs.ndjson"), [{k: c[k] for k in ("cfg", "rules", "two", "grp", "sym")} for c in inputs])
     spath = ctx.path("c11_shapes.ndjson")
     ctx.vh("exec-c11-shapes", ipath, spath, timeout=3000)
     shapes_of = [tuple(r["shape"]) for r in read_ndjson(spath)]
@@ -223,7 +241,7 @@ def run(ctx, cases_override=None):
     else:
         small, big = [], []
     # ---------------------------------------------------------------- EXEC: replay + JUDGE
-    rpath = write_ndjson(ctx.path("c11_replay.ndjson"), [{k: c[k] for k in ("cfg", "rules", "two", "grp", "orders")} for c in inputs])
+    rpath = write_ndjson(ctx.path("c11_replay.ndjson"), [{k: c[k] for k in ("cfg", "rules", "two", "grp", "sym", "orders")} for c in inputs])
     tpath = ctx.path("c11_trace.ndjson")
     ctx.vh("exec-c11-replay", rpath, tpath, timeout=3000)
     trace = read_ndjson(tpath)
@@ -239,7 +257,7 @@ def run(ctx, cases_override=None):
             msg = "input cfg=%s rules=%s two=%s grp=%s: arrival order %s renders differently from the --workers 1 order (outputs %s differ); unseparated pairs: %s" % (
                 v["cfg"], v["rules"], v["two"], v.get("grp"), v["what"].get("order"), v["what"].get("outputs"), v["kinds"])
         viols.append({"sig": sig_of(v), "what": msg,
-            "case": {"cfg": c["cfg"], "rules": c["rules"], "two": c["two"], "grp": c["grp"], "orders": [o for k, o in enumerate(c["orders"]) if k + 1 == v["what"].get("oid")]},
+            "case": {"cfg": c["cfg"], "rules": c["rules"], "two": c["two"], "grp": c["grp"], "sym": c.get("sym", False), "orders": [o for k, o in enumerate(c["orders"]) if k + 1 == v["what"].get("oid")]},
             "detail": v})
     drifts = ["input %s: %s" % (fid, json.dumps(d)[:400]) for fid, d in drift]
     # ---------------------------------------------------------------- EXEC: the real binary
@@ -252,7 +270,10 @@ def run(ctx, cases_override=None):
             nsel = 120 if th else 12
             # the inputs with most jobs plus an even sample of the rest
             sel = cand[:nsel // 2] + cand[nsel // 2::max(1, len(cand) // (nsel // 2))][:nsel // 2]
-            sel = sorted(set(sel))
+            # ... and inputs with several rules that make promql/regexp consult its (shared) settings
+            smelly = [k for k, c in enumerate(inputs) if c["cfg"] != "none" and c["rules"].count("smelly") >= 2][:(6 if th else 2)]
+            sym = [k for k, c in enumerate(inputs) if c.get("sym") and len(shapes_of[k]) >= 2][:(6 if th else 1)]
+            sel = sorted(set(sel + smelly + sym))
         else:
             sel = list(range(len(inputs)))
         workers = [2, 3, 10, 64]
@@ -271,7 +292,7 @@ def run(ctx, cases_override=None):
                 combos = [[2, 2, ctx.seed * 100 + n + 1], [3, 4, ctx.seed * 100 + n + 11], [10, 16, 0], [64, 16, ctx.seed * 100 + n + 21], [2, 1, ctx.seed * 100 + n + 31]]
             # plain lint keeps the weight it had (only there `[+N duplicates]` and the lint.go call order are visible)
             mode = inputs[k].get("mode") or ["lint", "lint", "ci", "lint", "lint-dups", "lint", "lint", "lint-minsev", "lint", "lint", "ci", "lint"][n % 12]
-            bin_inputs.append({"cfg": inputs[k]["cfg"], "rules": inputs[k]["rules"], "two": inputs[k]["two"], "grp": inputs[k]["grp"],
+            bin_inputs.append({"cfg": inputs[k]["cfg"], "rules": inputs[k]["rules"], "two": inputs[k]["two"], "grp": inputs[k]["grp"], "sym": inputs[k].get("sym", False),
                                "combos": combos, "mode": mode})
         bpath = write_ndjson(ctx.path("c11_bin_inputs.ndjson"), bin_inputs)
         btrace = ctx.path("c11_bin_trace.ndjson")
